@@ -51,6 +51,8 @@ def c02fwd : Drv where
     | ["complete", "up"] => go (.complete .up)
     | ["complete", "downCs"] => go (.complete .downCs)
     | ["complete", "downRaa"] => go (.complete .downRaa)
+    | ["handUpOther"] => go .handUpOther
+    | ["complete", "upOther"] => go .completeUpOther
     | ["crash", lost] => go (.crash (lost == "1"))
     | ["restart", sy] => go (.restart (sy == "1"))
     | ["chainPreimage"] => go .chainPreimage
